@@ -684,14 +684,18 @@ emit_step(const Case& c, const StepRec& r, const V& d0, int start, bool levelB, 
         }
       if (!z.empty())
         {
-          std::vector<double> zs = z;
-          std::sort(zs.begin(), zs.end());
-          const double zmed = zs[zs.size() / 2];
+          // reference: the voxel whose recovered value is least affected by the rounding of lambda' - lambda
+          std::size_t iref = 0;
+          for (std::size_t i = 1; i < z.size(); ++i)
+            if (zerr[i] < zerr[iref])
+              iref = i;
+          const double zmed = z[iref];
+          const double zmed_err = zerr[iref];
           ++oracle_checks;
           for (std::size_t i = 0; i < z.size(); ++i)
-            if (std::fabs(z[i] - zmed) > std::fabs(zmed) * (zerr[i] + 1e-5))
+            if (std::fabs(z[i] - zmed) > std::fabs(zmed) * (zerr[i] + zmed_err + 1e-5))
               {
-                ofail("update is not lambda + zeta N grad / D with one zeta for all voxels: recovered " + vh::hex(z[i]) + " vs median "
+                ofail("update is not lambda + zeta N grad / D with one zeta for all voxels: recovered " + vh::hex(z[i]) + " vs reference "
                       + vh::hex(zmed));
                 break;
               }
@@ -699,10 +703,10 @@ emit_step(const Case& c, const StepRec& r, const V& d0, int start, bool levelB, 
           ++oracle_checks;
           const int n_full = (r.k - 1) / c.nsub;
           const double zdoc = static_cast<double>(c.alpha) / (1. + static_cast<double>(c.gamma) * n_full);
-          if (std::fabs(zmed - zdoc) > 2e-4 * zdoc)
+          if (std::fabs(zmed - zdoc) > (2e-4 + zmed_err) * zdoc)
             {
               const double znext = static_cast<double>(c.alpha) / (1. + static_cast<double>(c.gamma) * (n_full + 1));
-              if (r.k % c.nsub == 0 && std::fabs(zmed - znext) <= 2e-4 * znext)
+              if (r.k % c.nsub == 0 && std::fabs(zmed - znext) <= (2e-4 + zmed_err) * znext)
                 known("relaxation:last-subiteration-of-each-full-iteration-uses-next-n",
                       "OSSPSReconstruction::update_estimate computes the relaxation from subiteration_num / num_subsets with the 1-based "
                       "sub-iteration counter, so the LAST sub-iteration of full iteration n (k = (n+1) num_subsets) already uses "
@@ -1176,6 +1180,36 @@ main(int argc, char** argv)
   }
   const int ngeoms = thorough ? 14 : 4;
   int id = 0;
+  // ---- a fixed small case (independent of the seed): 8 detectors x 2 rings, 5x5x3 image of 40 mm voxels whose corners lie
+  //      outside the cylindrical FOV (zero sensitivity), 2 subsets, gamma = 0.5, quadratic prior beta = 1, default everything else.
+  //      It is the minimal reproduction of the two known candidates (relaxation off by one sub-iteration; resume with prior and
+  //      non-identifiable voxels).
+  {
+    Case c;
+    c.id = ++id;
+    c.ndet = 8;
+    c.nrings = 2;
+    c.maxdelta = 1;
+    c.ntang = 3;
+    c.nxy = 5;
+    c.voxel = 40.F;
+    c.restrict_fov = true;
+    c.nsub = 2;
+    c.start_subset = 0;
+    c.nsubiter = 4;
+    c.alpha = 1.F;
+    c.gamma = 0.5F;
+    c.ep = 0;
+    c.prior = 1;
+    c.beta = 1.F;
+    c.data_seed = 20260928;
+    c.prefix = dir + "/c" + std::to_string(c.id);
+    if (!run_case(c, true, true, false))
+      {
+        ++oracle_checks;
+        ofail("the fixed minimal case was refused by set_up");
+      }
+  }
   for (int gidx = 0; gidx < ngeoms; ++gidx)
     {
       Case g;
